@@ -23,6 +23,8 @@ FFUNCS = {
     "<func>g": (1, "${result} = 0.5d0*${y} - 1", lambda t, y: 0.5 * y - 1),
     "<func>h": (2, "${result} = ${y} - ${z} + 2*${t}", lambda t, y, z: y - z + 2 * t),
 }
+# right-hand side of the optional second user type "v" (its own component, allocation and release routines)
+FV = ("<func>fv", "${result} = 0.5d0*${v} + ${t}", lambda t, v: 0.5 * v + t)
 
 
 class FScript(Script):
@@ -189,7 +191,8 @@ class FortranGen:
                      0.7,                    # 11 accumulate loop
                      0.6,                    # 12 len()
                      0.8,                    # 13 elementwise_abs on a user type
-                     0.8]                    # 14 array -> array built-ins (abs, transpose, matmul)
+                     0.8,                    # 14 array -> array built-ins (abs, transpose, matmul)
+                     2.0 if "<state>v" in self.types else 0]   # 15 second user type "v"
                 k = t.weighted(w, "opkind")
                 op = self.gen_op(k, D, depth)
                 if op is None:
@@ -423,6 +426,29 @@ class FortranGen:
                     kws.reverse()
                 return ("call", (tgt,), Call("<builtin>matmul", [Var(a), Var(a)], kws), self.mode())
             return ("call", (tgt,), Call("<builtin>matmul", [Var(a), Var(a), Const(c), Const(r)]), self.mode())
+        if k == 15:
+            vs_ = self.of(D, "utv")
+            form = t.weighted([3, 3 if "kv" in D else 0, 2, 2, 1.5 if "v2" in D else 0], "vform")
+            if form == 0:
+                self.types["kv"] = "utv"
+                self.used_v = True
+                D.add("kv")
+                src = self.pick(vs_, "vsrc") if vs_ else "<state>v"
+                if src == "kv":
+                    src = "<state>v"
+                return ("call", ("kv",), Call("<func>fv", [Var("<t>"), Var(src)]), self.mode())
+            if form == 1:
+                return ("assign", "<state>v", None,
+                        Bin("+", Var("<state>v"), Bin("*", self.g_scal_factor(D), Var("kv"))), [], self.mode())
+            if form == 2:
+                self.types["v2"] = "utv"
+                D.add("v2")
+                return ("assign", "v2", None, Var("<state>v"), [], self.mode())
+            if form == 3:
+                e = Var(self.pick(vs_, "yv")) if vs_ else Var("<state>v")
+                te = [Var("<t>"), Bin("+", Var("<t>"), Var("<dt>"))][t.draw(2, "vtime")]
+                return ("yield", e, "v", te, self.pick(["final", "mid", "t1"], "tid"), self.mode())
+            return ("assign", "<state>v", None, Var("v2"), [], self.mode())
         return None
 
     def gen(self):
@@ -441,6 +467,11 @@ class FortranGen:
             if t.chance(0.4, "state_w"):
                 self.types["<state>w"] = "ut"
                 sc.state0["w"] = np.array([float(self.pick(SMALL + DYADIC, "w0")) for _ in range(self.N)])
+            self.M = 2 + t.draw(3, "M")
+            self.used_v = False
+            if t.chance(0.45, "state_v"):
+                self.types["<state>v"] = "utv"
+                sc.state0["v"] = np.array([float(self.pick(SMALL + DYADIC, "v0")) for _ in range(self.M)])
             # counters and scalars are <state> scalars so that initialize() sets them
             self.counters_p = ["<state>n"]
             self.types["<state>n"] = "real"
@@ -513,6 +544,11 @@ class FortranGen:
                 continue
             if self.types.get(v) == "real":
                 tail.append(("assign", v, None, Bin("+", Var(v), Const(0.5)), [], "o"))
+            elif self.types.get(v) == "utv":
+                self.used_v = True
+                self.types["kv"] = "utv"
+                tail.append(("call", ("kv",), Call("<func>fv", [Var("<t>"), Var(v)]), "o"))
+                tail.append(("assign", v, None, Bin("+", Var(v), Bin("*", Var("<dt>"), Var("kv"))), [], "o"))
             elif self.types.get(v) == "ut":
                 self.used_funcs.add("<func>f")
                 self.types["k"] = "ut"
@@ -523,6 +559,13 @@ class FortranGen:
         sc.func_alias = {}
         sc.shape_sig = list(self.shape)
         sc.N = self.N
+        sc.M = self.M
+        sc.has_v = any(("<state>v" in (op[1],) if op[0] == "assign" else False) or
+                       (op[0] == "call" and op[2].fn == "<func>fv") or
+                       (op[0] == "yield" and op[2] == "v") for ph in sc.phases for op in _flat(ph.ops)) \
+            or self.used_v
+        if sc.has_v and "<func>fv" not in sc.funcs:
+            sc.funcs = sorted(set(sc.funcs) | {"<func>fv"})
         sc.exact = set(self.exact)
         return sc
 
@@ -549,6 +592,14 @@ def _flat_all(ops):
             yield op
 
 
+def user_type_map(sc):
+    import dagrt.codegen.fortran as f
+    m = {"y": f.ArrayType((sc.N,), f.BuiltinType("real*8"), index_vars="iv")}
+    if getattr(sc, "has_v", False):
+        m["v"] = f.ArrayType((sc.M,), f.BuiltinType("real*8"), index_vars="jv")
+    return m
+
+
 def make_registry(sc):
     """function registry with Fortran CallCode templates + the Python twins."""
     import dagrt.codegen.fortran as f
@@ -556,6 +607,11 @@ def make_registry(sc):
     freg = base_function_registry
     twins = {}
     for fn in sc.funcs:
+        if fn == FV[0]:
+            freg = register_ode_rhs(freg, "v", identifier=fn, input_type_ids=("v",), input_names=("v",))
+            freg = freg.register_codegen(fn, "fortran", f.CallCode("\n    " + FV[1] + "\n    "))
+            twins[fn] = FV[2]
+            continue
         n_in, body, twin = FFUNCS[fn]
         names = ("y", "z")[:n_in]
         freg = register_ode_rhs(freg, "y", identifier=fn, input_type_ids=("y",) * n_in, input_names=names)
